@@ -219,8 +219,9 @@ def c13(prop, pool, verdict, tier, seed):
     cov['evaluations'] = d['graphs'] + fz['evaluations']
     cov['distinct_nontrivial'] = d['nontrivial']
     cov['rule'] = ('all maps from n nodes to target tuples over the nodes plus one external name (self loops, duplicates, external targets), without and with one '
-                   'declared back edge, every subset for the subset queries, every (node, name) pair for reachability; scope: %s; non-trivial = has at least one edge'
-                   % json.dumps(d['scope']))
+                   'declared back edge, every subset for the subset queries, every (node, name) pair for reachability; scope: %s; plus the subset queries on every nested '
+                   'level of %d restructured closed CFGs (sub-graphs whose edges leave the graph); non-trivial = has at least one edge'
+                   % (json.dumps(d['scope']), d.get('nested_graphs', 0)))
     cov['exhaustive'] = d['exhaustive']
     cov['samples'] = cov['samples'] + d['samples'][:2]
     return 'other', cov, e1['assumptions'] + ['axiom R-ind (closure principle of reachability) is assumed, instantiated with the `seen` set of is_reachable_dfs']
@@ -228,6 +229,10 @@ def c13(prop, pool, verdict, tier, seed):
 
 def replay_digraph(r):
     from rtc import prop_c13
+    if r['query'].endswith('-nested'):
+        bad = prop_c13.check_nested({k: tuple(v) for k, v in r['graph'].items()})
+        print('replay nested query on %s: %d mismatches %s' % (r['graph'], len(bad), str(bad[:1])[:300]))
+        return 1 if bad else 0
     bad = [b for b in prop_c13.check_digraph({k: tuple(v) for k, v in r['graph'].items()}, {k: tuple(v) for k, v in r['backedges'].items()})
            if b[0] == r['query']]
     print('replay digraph query %s on %s: %d mismatches %s' % (r['query'], r['graph'], len(bad), str(bad[:1])[:300]))
